@@ -73,9 +73,13 @@ func verifHarness_C02_routing() {
 	late := verifParam("late", 1) // last target connects late (action "connect")
 	verifConfig("preempt", verifParam("preempt", 0))
 	verifConfig("maporder", verifParam("maporder", 0))
+	if sc := verifParam("chanscale", 0); sc > 0 {
+		verifConfig("chanscale", sc) // hand-off queues of this capacity: a slow target fills its queue within the action bound
+	}
 	e := rtNewEnv(nSrc, nTgt)
 	e.identities = verifParam("identities", 0) == 1
 	e.idleAction = verifParam("idle", 0) == 1
+	e.stallable = verifParam("stall", 0) == 1
 	e.lateFrom = nTgt
 	if late > 0 {
 		e.lateFrom = nTgt - 1
@@ -87,7 +91,14 @@ func verifHarness_C02_routing() {
 	verifQuiesce()
 	e.snapshotTasks = true
 	rtRunActions(e, nAct, maxBatch)
-	// everything connects eventually; then the run settles
+	// a slow target catches up, everything connects eventually; then the run settles
+	for _, t := range e.targets {
+		if t.stalled {
+			verifReach("slow-target-resumed")
+		}
+		t.resume()
+	}
+	verifQuiesce()
 	for j, t := range e.targets {
 		if !t.started {
 			e.connectTarget(j)
